@@ -25,6 +25,12 @@ func main() {
 		return
 	}
 	p.SetKnown(props.KnownNames())
+	if os.Args[1] == "aliases" {
+		for _, n := range eng.AliasNotes() {
+			fmt.Println(n)
+		}
+		return
+	}
 	fmt.Println("transparent:", p.TransparentNames())
 	fn := p.Fn(os.Args[1])
 	if fn == nil {
